@@ -397,7 +397,7 @@ def run(rep, program: Program, tier: str) -> None:
         f"R3 unrolls the inner line search to a bounded number of iterations",
     ]
     et = ExcTypes(program)
-    c12.rule_r1_r2(rep, program, et, prop=PROP, only_projection=True)
-    rule_r3(rep, program, tier)
-    rule_r4(rep, program)
-    rule_r5_r6(rep, program)
+    rep.isolate(c12.rule_r1_r2, rep, program, et, prop=PROP, only_projection=True)
+    rep.isolate(rule_r3, rep, program, tier)
+    rep.isolate(rule_r4, rep, program)
+    rep.isolate(rule_r5_r6, rep, program)
